@@ -52,6 +52,29 @@ def handle (args : List String) : Option String :=
         | none => "err"
         | some pv => showOB (some (Spec.satisfies p.dep x pv))
     some <| triple impl spec (if bigField tv || bigField p.version then "F03a" else "unlisted")
+  | ["v.res", c, v] =>
+    -- the resolver accepts the only candidate iff the constraint accepts its version. Three universes (see the
+    -- harness): a world entry, a dependency on the name, a dependency on a name the candidate PROVIDES as `n=v`
+    -- (the provided version is what the constraint splitter makes of that text: `so:` names get their `0.` prefix).
+    -- An operator the splitter does not know, as in `a<>1`, leaves "no operator": the resolver's filter then accepts
+    -- every candidate without looking at the version text (SatisfiedBy would try to parse it).
+    let p := parseConstraint (unhexS c)
+    let tv := unhexS v
+    let pvText := (parseConstraint (p.name ++ ['='] ++ tv)).version
+    let okOf (s : String) : String := if s == "true" then "ok" else "err"
+    let implOn (t : Text) : String := match Impl.parseVersion t with
+      | none => "err"
+      | some x => if p.dep.toNat == 0 then "ok" else okOf (showOB (p.satisfiedBy Impl.parseVersion x))
+    let specOn (t : Text) : String := match Spec.parseVersion t with
+      | none => "err"
+      | some x =>
+        if p.version.isEmpty || p.dep.toNat == 0 then "ok" else
+        match Spec.parseVersion p.version with
+        | none => "err"
+        | some pv => okOf (showOB (some (Spec.satisfies p.dep x pv)))
+    let join (w pv : String) : String := if w == pv then w else s!"world={w},dep={w},provided={pv}"
+    some <| triple (join (implOn tv) (implOn pvText)) (join (specOn tv) (specOn pvText))
+      (if bigField tv || bigField p.version then "F03a" else "unlisted")
   | _ => none
 
 end Apko.Driver.Version
